@@ -223,6 +223,11 @@ func tryCreateTimestamp(ts []int, nsecs int, overflow bool, offset, sign int64, 
 		return checkTimestampYear(NewDateTimestamp(date, precision))
 	}
 
+	// A local offset is less than a day: -23:59 to +23:59.
+	if offset <= -24*60 || offset >= 24*60 {
+		return Timestamp{}, fmt.Errorf("ion: invalid timestamp")
+	}
+
 	if overflow {
 		date = date.Add(time.Second)
 	}
